@@ -27,6 +27,7 @@ func init() {
 	verifRegister("verifC08CloseVsAPI", verifC08CloseVsAPI)
 	verifRegister("verifC08CloseVsBlockedIO", verifC08CloseVsBlockedIO)
 	verifRegister("verifC08CloseVsGather", verifC08CloseVsGather)
+	verifRegister("verifC08CloseAfterRestart", verifC08CloseAfterRestart)
 	verifRegister("verifC08CloseInCallback", verifC08CloseInCallback)
 	verifRegister("verifC08CloseConcurrent", verifC08CloseConcurrent)
 	verifRegister("verifC08CloseInBindingHandler", verifC08CloseInBindingHandler)
@@ -144,9 +145,15 @@ type verifC08Net struct {
 	verifNet
 	mu    sync.Mutex
 	socks []*verifBlockConn
+	// gate != nil: opening a socket is a slow step that only completes once
+	// the gate has been opened (a gathering cycle busy in the network)
+	gate chan struct{}
 }
 
 func (n *verifC08Net) ListenUDP(_ string, a *net.UDPAddr) (transport.UDPConn, error) {
+	if n.gate != nil {
+		<-n.gate
+	}
 	n.mu.Lock()
 	defer n.mu.Unlock()
 	c := verifNewBlockConn(a.IP.String(), 40001+len(n.socks))
@@ -491,6 +498,47 @@ func verifC08CloseVsGather() {
 	// the cycle is over and opens nothing more
 	w.net.mu.Lock()
 	verifAssert(len(w.net.socks) == opened, "no-socket-is-opened-after-Close-returned")
+	w.net.mu.Unlock()
+	verifReach("done")
+}
+
+// Close after a Restart that cancelled a running gathering cycle: cancelling is
+// not stopping, so the teardown still has to wait for that cycle. Once Close
+// has returned the cancelled cycle is over: it opens nothing more and every
+// socket it opened is closed.
+func verifC08CloseAfterRestart() {
+	w := verifC08New(true)
+	a := w.a
+	if verifTier() == 0 || verifChoice(2) == 1 {
+		// the cycle is busy in the network until some later moment
+		verifReach("slow-network")
+		w.net.gate = make(chan struct{})
+		k := verifChoice(3 + 3*verifTier())
+		go func() {
+			for n := k; n > 0; n-- {
+				runtime.Gosched()
+			}
+			close(w.net.gate)
+		}()
+	}
+	verifAssert(a.OnCandidate(func(Candidate) {}) == nil, "handler")
+	verifAssert(a.GatherCandidates() == nil, "GatherCandidates")
+	for n := verifChoice(2 + 2*verifTier()); n > 0; n-- {
+		runtime.Gosched()
+	}
+	err := a.Restart("c08newufrag", "c08newpasswordc08newpassword")
+	verifAssert(err == nil, "Restart-returns-nil")
+	w.closeIt()
+	w.net.mu.Lock()
+	opened := len(w.net.socks)
+	w.net.mu.Unlock()
+	verifReach("closed")
+	if opened > 0 {
+		verifReach("socket-opened-before-close")
+	}
+	w.after()
+	w.net.mu.Lock()
+	verifAssert(len(w.net.socks) == opened, "the-cancelled-cycle-opens-nothing-after-Close-returned")
 	w.net.mu.Unlock()
 	verifReach("done")
 }
